@@ -403,6 +403,8 @@ def run(w, rep, tier):
     rep.rule("C17.frames", "rotate_vector_w_to_b / _b_to_w are R(q)^T v / R(q) v, and every call site in the script applies them to a vector whose name declares the source frame and stores the result under a name that declares the target frame")
     rep.rule("C17.invariance", "the attitude laws are invariant under a common left multiplication of measured and reference attitude (they command a body rate from X^-1 X_r)")
     rep.rule("C17.limits", "motor commands stay within limits: every motor force is clamped into [0, F_max] and omega = sqrt(F/Ct) of the clamped force (the C13.clamp obligations)")
+    rep.rule("C17.plant", "the plant's attitude kinematics are the body-rate quaternion kinematics (the C16.norm obligations)")
+    rep.rule("C17.setpoint", "the set-point fed to the position loops: leash as a norm clamp of the vehicle-to-set-point error, integrator clamps (the C15.clamp obligations)")
     rep.rule("C17.gains", "feedback gains in the script are non-negative")
     keys = script_merges(w, rep)
     check_script_calls(w, rep, keys)
@@ -418,6 +420,12 @@ def run(w, rep, tier):
         quat_log_principal(w, rep, "C17.restoring", "attitude loop: ")
     # "motor commands stay within limits": the allocator's clamps (C13.clamp)
     forward_rules(w, rep, "c13", {"C13.clamp": "C17.limits"}, tier)
+    # the plant integrates BODY rates (q' = 1/2 q (0, w)): the C16 kinematics obligations; the position set-point handed to
+    # the outer loop is the leashed one of input_velocity (translation-invariant 2 m limit): the C15 clamp obligations
+    forward_rules(w, rep, "c16", {"C16.norm": "C17.plant"}, tier)
+    forward_rules(w, rep, "c15", {"C15.clamp": "C17.setpoint"}, tier)
+    rep.floor("C17.plant", 3)
+    rep.floor("C17.setpoint", 9)
     rep.floor("C17.limits", 8)
     check_gains(w, rep)
     rep.floor("C17.signs", 16)
